@@ -204,7 +204,7 @@ class Sched(object):
         self.current = to
         self.sems[to].release()
 
-    def run(self, fns, timeout=120.0):
+    def run(self, fns, timeout=600.0):
         """fns: one callable per simulated thread. Returns when all have finished."""
         threads = [threading.Thread(target=self._body, args=(i, fn), name="sim-%d" % i) for i, fn in enumerate(fns)]
         for t in threads:
